@@ -16,7 +16,7 @@ from .facts import MissingAnchor, rv_operands
 NOISE_CALLS = {
     'branch', 'from_residual', 'from', 'into', 'clone', 'deref', 'deref_mut', 'borrow', 'as_ref', 'eq', 'ne',
     'lt', 'le', 'gt', 'ge', 'cmp', 'partial_cmp', 'drop', 'default', 'fmt', 'into_iter', 'next', 'as_mut',
-    'map_err', 'ok_or', 'unwrap_or', 'is_some', 'is_none', 'not',
+    'map_err', 'ok_or', 'unwrap_or', 'is_some', 'is_none', 'is_ok', 'is_err', 'not',
 }
 
 
